@@ -9,6 +9,7 @@ import (
 	"crypto/rsa"
 	"math/big"
 	"strconv"
+	"strings"
 
 	"github.com/tink-crypto/tink-go/v2/verifharness/hx"
 	"github.com/tink-crypto/tink-go/v2/verifharness/p/c03/pssref"
@@ -193,6 +194,22 @@ func gen(r *hx.Rng, n int, tier string) []string {
 	byScheme := map[string][]config{}
 	for _, c := range cfgs {
 		byScheme[c.scheme] = append(byScheme[c.scheme], c)
+	}
+	// directed: the whole prefix / truncation family through the per-key constructors, once per
+	// scheme x variant
+	seenPfx := map[string]bool{}
+	for _, c := range cfgs {
+		if seenPfx[c.scheme+c.variant] || (c.bits != 0 && c.bits != 2048) {
+			continue
+		}
+		seenPfx[c.scheme+c.variant] = true
+		kinds := []string{"drop", "junk", "start", "flip", "id", "short", "variant", "raw-key", "trunc-end", "trunc-front"}
+		if c.variant == "R" {
+			kinds = []string{"added", "trunc-end", "trunc-front"}
+		}
+		for _, kd := range kinds {
+			out = append(out, x.vcase(c, "pfx:"+kd))
+		}
 	}
 	zeroDirected := map[string]int{}
 	zeroWanted := func(c config) bool {
@@ -602,6 +619,14 @@ func (x *g) vcase(c config, force string) string {
 	if zero {
 		force = ""
 	}
+	// directed prefix family "pfx:<kind>": always through the PER-KEY constructor (API K, the full
+	// primitive the registry hands out); the keyset-level verifier would hide a per-key prefix bug
+	// because its prefix map only hands over signatures whose first five bytes match
+	pfxKind := ""
+	if strings.HasPrefix(force, "pfx:") {
+		pfxKind, force = force[4:], ""
+		s.api, v.s.api = "K", "K"
+	}
 	if force != "" {
 		v.label = force
 		return v.line()
@@ -616,6 +641,49 @@ func (x *g) vcase(c config, force string) string {
 	gk := r.Intn(30)
 	if zero {
 		gk = 29
+	}
+	switch pfxKind {
+	case "drop":
+		v.sig, v.label = body, "bad:pfx-drop"
+		return v.line()
+	case "junk":
+		v.sig, v.label = append(r.Bytes(1+r.Intn(6)), sig...), "bad:junk-before-prefix"
+		return v.line()
+	case "start":
+		v.sig = bytes.Clone(sig)
+		v.sig[0] ^= 1
+		v.label = "bad:pfx-start-byte"
+		return v.line()
+	case "flip":
+		v.sig = bytes.Clone(sig)
+		v.sig[1+r.Intn(4)] ^= 1 << r.Intn(8)
+		v.label = "bad:pfx-flip"
+		return v.line()
+	case "trunc-end":
+		v.sig, v.label = sig[:len(sig)-1-r.Intn(3)], "bad:trunc-end"
+		return v.line()
+	case "trunc-front":
+		v.sig, v.label = sig[1+r.Intn(4):], "bad:trunc-front"
+		return v.line()
+	case "id":
+		gk = 6
+	case "short":
+		gk = 7
+	case "added":
+		gk = 8
+	case "variant":
+		for {
+			v.s.variant = hx.PickS(r, variants[:3])
+			if v.s.variant != s.variant {
+				break
+			}
+		}
+		v.label = "bad:other-variant"
+		return v.line()
+	case "raw-key":
+		// a prefixed signature under the RAW key with the same material, and conversely
+		v.s.variant, v.s.id, v.label = "R", 0, "bad:raw-key-prefixed-sig"
+		return v.line()
 	}
 	switch k := gk; {
 	case k == 0:
